@@ -3,7 +3,7 @@ CONSTANTS
   Sizes = {1, 3}
   MaxScript = 2
   Retry = 2
-  Fix = {}
+  Fix = {"exists", "nopeer_fails"}
   Emit = TRUE
 INVARIANTS EmitInv
 CHECK_DEADLOCK FALSE
